@@ -3,7 +3,7 @@
    project = (config, model files, migration files); every command is a function of it that
    re-derives the pending plan EXACTLY the way its Rust counterpart does:
      cmd_diff      vespertide-cli/src/commands/diff.rs:8-40
-     cmd_sql       vespertide-cli/src/commands/sql.rs:8-31      (prefix on stored plans + new plan, NOT on models)
+     cmd_sql       vespertide-cli/src/commands/sql.rs:8-34      (plans like diff; prefix on the new plan and on the baseline)
      cmd_status    vespertide-cli/src/commands/status.rs:8-160  (plans the next migration like diff; no prefix)
      cmd_log       vespertide-cli/src/commands/log.rs:9-104     (prefix on stored plans, incremental baseline)
      cmd_revision  vespertide-cli/src/commands/revision.rs:370-470
@@ -102,6 +102,14 @@ Definition cmd_diff (P : project) : cres diff_out :=
 (* what emit_sql hands to build_plan_queries: the (prefixed) plan and the baseline *)
 Inductive sql_out := SqlNone | SqlRender (version : N) (acts : list action) (baseline : schema).
 
+(* sql.rs:8-34 since fix 72fa6f0: plan against the unprefixed history exactly as `diff` does, then prefix the plan
+   and render it against the replay of the prefixed history.
+   (history: before that fix the prefixed history was diffed against the unprefixed models and the result prefixed
+   again: with prefix "app_", one table and one stored migration `diff` was empty while `sql` printed
+   CREATE TABLE app_user + DROP TABLE app_app_user — DESIGN D8, witness corpus/cli/c13_d8_sql_prefix.json) *)
+Definition prefixed_baseline (pfx : string) (plans : list plan) : result schema planner_error :=
+  replay (map (plan_with_prefix pfx) plans).
+
 Definition cmd_sql (P : project) : cres sql_out :=
   match load_models P with
   | Err e => Err e
@@ -109,18 +117,20 @@ Definition cmd_sql (P : project) : cres sql_out :=
       match load_migrations P with
       | Err e => Err e
       | Ok plans =>
-          let pfx := pj_prefix P in
-          let pplans := map (plan_with_prefix pfx) plans in                      (* sql.rs:14-18 *)
-          match replay pplans with                                               (* sql.rs:19 *)
+          match replay plans with                                                (* sql.rs:15-16 *)
           | Err e => Err (EBaseline e)
           | Ok baseline =>
-              match diff_actions baseline models with                            (* sql.rs:23-25: models NOT prefixed *)
+              match diff_actions baseline models with                            (* sql.rs:17-19 *)
               | Err e => Err (EPlanning (PlanDiff e))
               | Ok acts =>
-                  let plan := mkPlan "" None None (next_version pplans) acts in
-                  let pplan := plan_with_prefix pfx plan in                      (* sql.rs:28 *)
-                  Ok (if is_nil (p_actions pplan) then SqlNone
-                      else SqlRender (p_version pplan) (p_actions pplan) baseline)
+                  let pfx := pj_prefix P in
+                  let pplan := plan_with_prefix pfx (mkPlan "" None None (next_version plans) acts) in   (* sql.rs:23 *)
+                  match prefixed_baseline pfx plans with                         (* sql.rs:24-29 *)
+                  | Err e => Err (EBaseline e)
+                  | Ok pb =>
+                      Ok (if is_nil (p_actions pplan) then SqlNone
+                          else SqlRender (p_version pplan) (p_actions pplan) pb)
+                  end
               end
           end
       end
@@ -332,7 +342,23 @@ Inductive rev_out :=
 | RevNeedsTty                         (* a prompt is needed and there is no terminal: "not a terminal", exit 1 *)
 | RevRefusedVersion                   (* fix fcb5089: a stored plan already has this or a greater version (u32 saturation), exit 1 *)
 | RevRefusedExists                    (* fix fcb5089: the target file already exists, nothing is overwritten, exit 1 *)
+| RevRefusedInvalid (e : validate_error)  (* fix 06565a6: the filled plan fails validate_migration_plan ("invalid migration plan"), exit 1 *)
 | RevWrote (file : string) (p : plan).
+
+(* the tail of cmd_revision once every fill value is there (revision.rs:446-500): default as fill value, validation of
+   the plan as the loader will validate it, id / comment / time, file name, existence test, write *)
+Definition revision_finish (P : project) (message : string) (env : rev_env) (version : N) (baseline : schema)
+  (a2 : list action) : rev_out :=
+  let a3 := map (default_as_fill baseline) a2 in                                  (* apply_default_as_fill_with (fix 446c8b4) *)
+  let p' := mkPlan (re_uuid env) (Some message) (Some (re_now env)) version a3 in
+  match validate_migration_plan p' with                                           (* fix 06565a6 *)
+  | Err e => RevRefusedInvalid e
+  | Ok _ =>
+      let cfg := pj_config P in
+      let name := migration_filename version (Some message) (cf_migration_format cfg) (cf_pattern cfg) in
+      if mem_str name (file_names P) then RevRefusedExists                        (* path.exists() *)
+      else RevWrote name p'
+  end.
 
 Definition cmd_revision (P : project) (message : string) (fill_args : list string) (env : rev_env)
   : cres rev_out :=
@@ -372,15 +398,7 @@ Definition cmd_revision (P : project) (message : string) (fill_args : list strin
                           end in
                         match step2 with
                         | None => Ok RevNeedsTty
-                        | Some a2 =>
-                            (* apply_default_as_fill_with (fix 446c8b4): NOT NULL on a defaulted column takes the default *)
-                            let a3 := map (default_as_fill baseline) a2 in
-                            let cfg := pj_config P in
-                            let p' := mkPlan (re_uuid env) (Some message) (Some (re_now env)) (p_version plan) a3 in
-                            let name := migration_filename (p_version p') (p_comment p')
-                                          (cf_migration_format cfg) (cf_pattern cfg) in
-                            if mem_str name (file_names P) then Ok RevRefusedExists             (* path.exists() *)
-                            else Ok (RevWrote name p')
+                        | Some a2 => Ok (revision_finish P message env (p_version plan) baseline a2)
                         end
                     end
                 end
